@@ -24,7 +24,8 @@ def sh(*cmd, **kw):
 
 
 def tok(s):
-    return s.split("-")[0]
+    parts = s.split("-")
+    return parts[0] if parts[0] != "F" or len(parts) < 2 else "-".join(parts[:2])
 
 
 def main():
@@ -36,6 +37,11 @@ def main():
         commits = {}
         for diff in diffs:
             stem = os.path.basename(diff)[:-5]
+            prev = sh("git", "-C", "/repo", "log", "--format=%h", "--fixed-strings", "--grep", "[%s %s]" % (pid, stem)).stdout.split()
+            if prev:  # already integrated (never re-apply: a hunk may land elsewhere with an offset)
+                print(pid, stem, "already integrated as", prev[0])
+                commits[stem] = prev[0]
+                continue
             if sh("git", "-C", "/repo", "apply", "--check", diff).returncode != 0:
                 if sh("git", "-C", "/repo", "apply", "--check", "-R", diff).returncode == 0:
                     print(pid, stem, "already applied")
